@@ -11,7 +11,7 @@ import z3
 
 from . import ops
 from . import ty as T
-from .core import PYOBJ, ContractMisfit, Unsupported, Val, coerce, fresh, fresh_name, lift
+from .core import PYOBJ, ContractMisfit, Unsupported, Val, coerce, fresh, fresh_name, lift, seq_nth
 from .ops import is_const, truthy, z3bool
 
 
@@ -376,7 +376,7 @@ class ExprMixin:
         if isinstance(t, T.List):
             i = lift(idx, T.INT)
             j = self.norm_index(i, z3.Length(lift(recv)), st, node)
-            return Val(t.elem, lift(recv)[j])
+            return Val(t.elem, seq_nth(lift(recv), j))
         if t == T.STR:
             i = lift(idx, T.INT)
             j = self.norm_index(i, z3.Length(lift(recv)), st, node)
